@@ -466,11 +466,40 @@ def blocks(count, rng):
     return cases
 
 
+VALIDATION_ERRORS = ("InvalidDarts", "UndefinedEdge", "VertexBound", "WrongAmountDarts")
+
+
+def swallowed(count, rng):
+    """the inputs of `invalid` inside `txi … endtx`: the caller swallows the refusal and commits.  A VALIDATION error must have
+    been returned before any write, so the committed map equals the map before the block"""
+    cases = []
+    for c in invalid(count, rng):
+        i = c.meta["op_idx"]
+        pre, op = c.lines[:i - 1], c.lines[i]
+        lines = pre + ["snap", "txi", op, "endtx", "snap", "wf"]
+        cases.append(Case("sw" + c.cid, lines, oracle="c14sw", meta={"sig": "swallowed-" + c.meta["sig"], "i": len(pre)}))
+    return cases
+
+
+def oracle_swallowed(case, li):
+    if any(x.startswith("<missing") for x in li):
+        return "driver died"
+    i = case.meta["i"]
+    s0, tx, s1, wf = li[i], li[i + 3], li[i + 4], li[i + 5]
+    if tx.startswith("tx ok err ") and tx.split()[3] in VALIDATION_ERRORS and s0 != s1:
+        return f"the call was refused with the validation error {tx[6:]!r} but had already written: the committed map differs from the map before the block"
+    if wf != "wf true true true" and tx.startswith("tx ok err "):
+        return f"well-formedness lost after a swallowed refusal {tx[6:]!r}: {wf}"
+    return None
+
+
 # ---------------------------------------------------------------------------------------------
 
 def run(tier, seed):
     rng = random.Random(seed)
     parts = []
+    parts.append(("refusals swallowed by the caller's transaction (txi): validation errors come before any write",
+                  hv.campaign(swallowed(3000 if tier == "quick" else 40000, rng), oracle_swallowed, max_report=50)))
     if tier == "quick":
         r1 = hv.campaign(exhaustive(3, rng), oracle_c14, max_report=200)
         r1["stats"]["exhaustive"] = True
